@@ -153,7 +153,9 @@ def oracleC12 (c : Case) : Option (List String) :=
       | 2 => okCo x y
       | 3 => z.wf 0 && okCo x y && okCo y z
       | 4 => okMul x y
-      | _ => okCo x y
+      -- the dual law multiplies the NEGATIONS: their base rates 1-a both round to 1 when both a are below half an ulp
+      -- of 1, which puts the product outside mul's domain although the exact operands are inside
+      | _ => okCo x y && !(decide (x.a ≤ c.eps) && decide (y.a ≤ c.eps))
     if !dom then none else
     withValue c "C12" fun out =>
       let l := qbAt out 0
@@ -277,7 +279,17 @@ def oracleC08 (c : Case) : Option (List String) :=
   | "mbr" =>
     let ax := slice xs 0 n
     let cs := condAt xs n n m
-    if !(wfBaseRate 0 ax && condWf 0 cs) then none else
+    -- operands that are well-formed only within the constructors' tolerance (e.g. a subnormal base-rate entry next to
+    -- entries summing to 1): the exact clauses cannot be evaluated, but what is returned must still be absent or a
+    -- NaN-free distribution
+    if !(wfBaseRate 0 ax && condWf 0 cs) then
+      (if !(wfBaseRate (4 * c.eps) ax && condWf (4 * c.eps) cs) then none
+       else if c.cls == "none" then some []
+       else if c.cls != "ok" then some ["C08.no_value(" ++ c.cls ++ ")"]
+       else match allSome c.out with
+         | none => some ["C08.nan"]
+         | some out => some (check "C08.some_dist" (wfBaseRate (τ * m) out.toList)))
+    else
     let w := beliefWeight ax cs
     -- every conditional vacuous by the guard (u >= 1-2eps) while some carries belief: inside the vacuity tolerance band
     -- (theorem C08_band_witness / C08_none_within): the guard may classify the table as all-vacuous
@@ -294,7 +306,13 @@ def oracleC08 (c : Case) : Option (List String) :=
   | "deduce" | "deduce_with" =>
     let (_, _, ax) := opinionAt xs 0 n
     let cs := condAt xs (2 * n + 1) n m
-    if !(wfBaseRate 0 ax && condWf 0 cs) then none else
+    if !(wfBaseRate 0 ax && condWf 0 cs) then
+      (if !(wfBaseRate (4 * c.eps) ax && condWf (4 * c.eps) cs) then none
+       else if c.cls != "ok" then some []
+       else match allSome c.out with
+         | none => some ["C08.nan_poisoned"]
+         | some _ => some [])
+    else
     let w := beliefWeight ax cs
     if decide (w ≠ 0) && cs.all (fun cc => decide (1 - 2 * c.eps ≤ cc.2)) then none else
     if c.op == "deduce" then
@@ -448,6 +466,13 @@ def oracleC11 (c : Case) : Option (List String) :=
     tolerance boundary (margin 2^-20 relative). -/
 def oracleC20 (c : Case) : Option (List String) :=
   match c.op with
+  | "bcmpc" =>
+    -- exact, for every input (NaN, infinities, boundary of the tolerance included): the comparison of the opinions is the
+    -- conjunction of the scalar type's own comparison of b, d, u and a
+    if c.cls != "ok" then some ["C20.no_value"] else
+    match c.flags with
+    | [w, cb, cd, cu, ca] => some (check "C20.component_wise" (w == (cb && cd && cu && ca)))
+    | _ => some ["C20.shape"]
   | "bcmp" =>
     match allSome c.inp with
     | none => none
